@@ -89,11 +89,13 @@ Definition spec_op (Xs : list (gset Z)) (o : op) : option (list (gset Z) * out) 
    lists every member of the set it iterates exactly once (only where the
    result could depend on it; Slice/String/Range/CartesianProduct are specified
    for every order) *)
+Definition covers_at (Xs : list (gset Z)) (h : nat) (o : list Z) : Prop :=
+  match Xs !! h with Some X => covers X o | None => True end.
 Definition orders_ok (Xs : list (gset Z)) (o : op) : Prop :=
   match o with
-  | OLen h o | OClone h o => ∀ X, Xs !! h = Some X → covers X o
-  | OAddSet h g og | ORemoveSet h g og => ∀ Y, Xs !! g = Some Y → covers Y og
-  | OBin _ h g oh og => (∀ X, Xs !! h = Some X → covers X oh) ∧ (∀ Y, Xs !! g = Some Y → covers Y og)
+  | OLen h o | OClone h o => covers_at Xs h o
+  | OAddSet h g og | ORemoveSet h g og => covers_at Xs g og
+  | OBin _ h g oh og => covers_at Xs h oh ∧ covers_at Xs g og
   | _ => True
   end.
 
@@ -118,6 +120,22 @@ Fixpoint all_orders_ok (Xs : list (gset Z)) (ops : list op) : Prop :=
       orders_ok Xs o ∧
       match spec_op Xs o with Some (Xs', _) => all_orders_ok Xs' ops' | None => True end
   end.
+
+(* the hypotheses on visit orders are decidable (used by the examples) *)
+Global Instance covers_dec X o : Decision (covers X o).
+Proof.
+  unfold covers. apply and_dec; [apply _|].
+  refine (cast_if (decide (set_Forall (λ v, v ∈ o) X))); unfold set_Forall in *; done.
+Defined.
+Global Instance covers_at_dec Xs h o : Decision (covers_at Xs h o).
+Proof. unfold covers_at. destruct (Xs !! h); apply _. Defined.
+Global Instance orders_ok_dec Xs o : Decision (orders_ok Xs o).
+Proof. destruct o; cbn; apply _. Defined.
+Global Instance all_orders_ok_dec ops : ∀ Xs, Decision (all_orders_ok Xs ops).
+Proof.
+  induction ops as [|o ops IH]; intros Xs; cbn; [apply _|].
+  apply and_dec; [apply _|]. destruct (spec_op Xs o) as [[Xs' v]|]; apply _.
+Defined.
 
 Section with_seq_proofs.
   Variable WF : mstate → Prop.
@@ -379,9 +397,10 @@ Section with_seq_proofs.
       destruct Hone as (a & -> & Hwf & <-).
       destruct (as_Has_spec a v Hwf) as (H1 & H2 & H3). destruct (as_Has a v) as [a' b]. cbn in *. subst b.
       eexists. split; [done|]. by eapply rel_upd_same.
-    - (* len *) specialize (Hone h). destruct (Xs !! h) as [X|] eqn:EX; [|by rewrite Hone].
+    - (* len *) specialize (Hone h). unfold orders_ok, covers_at in Hord.
+      destruct (Xs !! h) as [X|] eqn:EX; [|by rewrite Hone].
       destruct Hone as (a & -> & Hwf & <-).
-      destruct (as_Len_spec a o Hwf (Hord _ EX)) as (H1 & H2 & H3). destruct (as_Len a o) as [a' n]. cbn in *. subst n.
+      destruct (as_Len_spec a o Hwf Hord) as (H1 & H2 & H3). destruct (as_Len a o) as [a' n]. cbn in *. subst n.
       eexists. split; [done|]. by eapply rel_upd_same.
     - (* slice *) specialize (Hone h). destruct (Xs !! h) as [X|] eqn:EX; [|by rewrite Hone].
       destruct Hone as (a & -> & Hwf & <-).
@@ -396,36 +415,36 @@ Section with_seq_proofs.
       destruct (as_Range_stop_spec a o j Hwf) as (H1 & H2 & H3 & _).
       destruct (as_Range a o (stop_cb j) (0%nat, [])) as [a' [calls seen]]. cbn in *. subst seen.
       eexists. split; [done|]. by eapply rel_upd_same.
-    - (* clone *) specialize (Hone h). destruct (Xs !! h) as [X|] eqn:EX; [|by rewrite Hone].
+    - (* clone *) specialize (Hone h). unfold orders_ok, covers_at in Hord.
+      destruct (Xs !! h) as [X|] eqn:EX; [|by rewrite Hone].
       destruct Hone as (a & -> & Hwf & <-).
-      destruct (as_Clone_spec a o Hwf (Hord _ EX)) as (a' & c & E & H1 & H2 & H3 & H4). rewrite E. cbn.
+      destruct (as_Clone_spec a o Hwf Hord) as (a' & c & E & H1 & H2 & H3 & H4). rewrite E. cbn.
       eexists. split; [done|]. apply rel_snoc; [|done|done]. by eapply rel_upd_same.
     - (* addset *) destruct (Nat.eqb_spec h g) as [->|Hne]; [done|].
-      pose proof (Hone h) as Hh. pose proof (Hone g) as Hg.
+      pose proof (Hone h) as Hh. pose proof (Hone g) as Hg. unfold orders_ok, covers_at in Hord.
       destruct (Xs !! h) as [X|] eqn:EX; [|by rewrite Hh].
       destruct Hh as (a & -> & Hwfa & <-).
       destruct (Xs !! g) as [Y|] eqn:EY; [|by rewrite Hg].
       destruct Hg as (b & -> & Hwfb & <-).
-      destruct (as_AddSet_spec a b og Hwfa Hwfb (Hord _ EY)) as (a' & b' & E & H1 & H2 & H3 & H4). rewrite E. cbn.
+      destruct (as_AddSet_spec a b og Hwfa Hwfb Hord) as (a' & b' & E & H1 & H2 & H3 & H4). rewrite E. cbn.
       eexists. split; [done|]. eapply rel_upd_same; [by apply rel_upd| |done|done].
       by rewrite list_lookup_insert_ne.
     - (* removeset *) destruct (Nat.eqb_spec h g) as [->|Hne]; [done|].
-      pose proof (Hone h) as Hh. pose proof (Hone g) as Hg.
+      pose proof (Hone h) as Hh. pose proof (Hone g) as Hg. unfold orders_ok, covers_at in Hord.
       destruct (Xs !! h) as [X|] eqn:EX; [|by rewrite Hh].
       destruct Hh as (a & -> & Hwfa & <-).
       destruct (Xs !! g) as [Y|] eqn:EY; [|by rewrite Hg].
       destruct Hg as (b & -> & Hwfb & <-).
-      destruct (as_RemoveSet_spec a b og Hwfa Hwfb (Hord _ EY)) as (a' & b' & E & H1 & H2 & H3 & H4). rewrite E. cbn.
+      destruct (as_RemoveSet_spec a b og Hwfa Hwfb Hord) as (a' & b' & E & H1 & H2 & H3 & H4). rewrite E. cbn.
       eexists. split; [done|]. eapply rel_upd_same; [by apply rel_upd| |done|done].
       by rewrite list_lookup_insert_ne.
     - (* binary *) destruct (Nat.eqb_spec h g) as [->|Hne]; [done|].
-      pose proof (Hone h) as Hh. pose proof (Hone g) as Hg.
+      pose proof (Hone h) as Hh. pose proof (Hone g) as Hg. destruct Hord as [Ho1 Ho2]. unfold covers_at in Ho1, Ho2.
       destruct (Xs !! h) as [X|] eqn:EX; [|by rewrite Hh].
       destruct Hh as (a & -> & Hwfa & <-).
       destruct (Xs !! g) as [Y|] eqn:EY; [|by rewrite Hg].
       destruct Hg as (b & -> & Hwfb & <-).
-      destruct Hord as [Ho1 Ho2].
-      destruct (as_Bin_spec bo a b oh og Hwfa Hwfb (Ho1 _ EX) (Ho2 _ EY))
+      destruct (as_Bin_spec bo a b oh og Hwfa Hwfb Ho1 Ho2)
         as (r & a' & b' & E & H1 & H2 & H3 & H4 & H5 & H6). rewrite E. cbn.
       eexists. split; [done|]. apply rel_snoc; [|done|done].
       eapply rel_upd_same; [by eapply rel_upd_same|done|done|done].
